@@ -72,6 +72,36 @@ Theorem C02_nonce_never_rewound :
 Proof. exact nonce_never_rewound. Qed.
 Print Assumptions C02_nonce_never_rewound.
 
+(** NONCE MATCHED AND CONSUMED ONCE, as seen on the state DeliverTx commits.  A transaction on the EVM route is either
+    turned away by the ante chain and changes nothing, or every message's nonce equalled its sender's sequence
+    ([admit_seq]) and afterwards every sender's sequence has advanced by EXACTLY the number of its messages — whether
+    the messages succeeded or failed as a whole (gas limit below the intrinsic gas) and whatever each EVM execution
+    did: contract creation or call, ran to its end, REVERT, invalid opcode, out of gas, or refused for lack of funds
+    for the value BEFORE the EVM touched the nonce ([eth_exec]). *)
+Theorem C02_admitted_nonce_consumed_exactly_once :
+  forall (c : cfg) (w : world) (s : st) (x : tx),
+    cfg_ok c -> route_tx c (t_ext x) = RouteEVM ->
+    (evm_ante c w s x = None /\ deliver c w s x = (s, false)) \/
+    (exists ls s1, evm_ante c w s x = Some s1 /\ direct_eth (t_msgs x) = Some ls /\ admit_seq s ls s1 /\
+       forall b, seq_of (fst (deliver c w s x)) b = (seq_of s b + count_from b ls)%nat).
+Proof. exact evm_tx_consumes_nonces_once. Qed.
+Print Assumptions C02_admitted_nonce_consumed_exactly_once.
+
+(** A nonce once admitted is never admitted again: after the ante chain admitted [x] — whatever then happened to its
+    messages, whatever history follows — every transaction carrying a message with the same sender and nonce, in
+    particular the very same signed bytes delivered again by anybody, is turned away and changes nothing. *)
+Theorem C02_admitted_nonce_never_admitted_again :
+  forall (c : cfg) (w : world) (s : st) (x : tx) (h : list tx) (y : tx),
+    cfg_ok c -> world_ok w -> tx_wf w x -> Forall (tx_wf w) h -> grants_ok w s ->
+    route_tx c (t_ext x) = RouteEVM -> route_tx c (t_ext y) = RouteEVM ->
+    forall s1 a n g p v xi g' p' v' xi',
+      evm_ante c w s x = Some s1 ->
+      In (Leaf (EthTx a n g p v xi)) (t_msgs x) -> In (Leaf (EthTx a n g' p' v' xi')) (t_msgs y) ->
+      let t := run_history c w (fst (deliver c w s x)) h in
+      evm_ante c w t y = None /\ deliver c w t y = (t, false).
+Proof. exact admitted_nonce_never_admitted_again. Qed.
+Print Assumptions C02_admitted_nonce_never_admitted_again.
+
 (** Corollary: nobody receives a gas refund that was not paid for — the refund the handler credits is covered
     by what the EVM ante chain took from the same sender in the same transaction. *)
 Theorem C02_refund_covered_by_prepayment :
@@ -81,10 +111,10 @@ Theorem C02_refund_covered_by_prepayment :
 Proof. exact refund_covered_by_prepayment. Qed.
 Print Assumptions C02_refund_covered_by_prepayment.
 
-(** Per message, for every gas limit and every (non-negative) wei price — whole unibi or not: the refund
-    WeiToNative(leftover gas × price) never exceeds the prepayment WeiToNative(gas limit × price). *)
+(** Per message, for every gas limit, every amount of gas used and every (non-negative) wei price — whole unibi or
+    not: the refund WeiToNative(leftover gas × price) never exceeds the prepayment WeiToNative(gas limit × price). *)
 Theorem C02_refund_le_prepayment_any_wei_price :
-  forall g p, 0 <= p -> refund_of g p <= prepay true g p.
+  forall g used p, 0 <= p -> 0 <= used -> refund_of g used p <= prepay true g p.
 Proof. exact refund_le_exact_prepay. Qed.
 Print Assumptions C02_refund_le_prepayment_any_wei_price.
 
@@ -126,6 +156,18 @@ Theorem C02_refuted_if_fee_priced_per_truncated_gas_price :
     bal_of harness_init a < bal_of (fst (deliver cfg_fee_per_gas harness_world harness_init x)) a.
 Proof. exact refuted_if_fee_priced_per_truncated_gas_price. Qed.
 Print Assumptions C02_refuted_if_fee_priced_per_truncated_gas_price.
+
+(** ApplyEvmMsg no longer writing msg.nonce + 1 after evm.Create: a creation with a value the sender cannot pay on
+    top of the gas prepayment is admitted, charged, included — and leaves the sequence where it was; the same signed
+    bytes are admitted a second time. *)
+Theorem C02_refuted_if_create_skips_post_nonce :
+  exists x l, tx_wf harness_world x /\ t_ext x = EvmExt /\
+    let d1 := deliver cfg_create_nonce_not_bumped harness_world harness_init x in
+    let d2 := deliver cfg_create_nonce_not_bumped harness_world (fst d1) x in
+    snd d1 = true /\ seq_of (fst d1) 23 = seq_of harness_init 23 /\ bal_of (fst d1) 23 < bal_of harness_init 23 /\
+    snd d2 = true /\ ran (fst d2) = [l; l].
+Proof. exact refuted_if_create_skips_post_nonce. Qed.
+Print Assumptions C02_refuted_if_create_skips_post_nonce.
 
 (** The wasm handler's "signer must be the contract" check dropped. *)
 Theorem C02_refuted_if_wasm_signer_unchecked :
